@@ -411,18 +411,6 @@ fn check_events(line: &str, out: &mut CaseOut, desc: &str) -> String {
             _ => {}
         }
     }
-    // dependencies: a table that is computed from EXP_LOG must begin... (its
-    // initialiser derefs EXP_LOG, so EXP_LOG's end precedes the dependent's end)
-    for dep in [T_LOG_WALSH, T_MUL16, T_MUL128, T_SKEW] {
-        if let (Some(e_dep), Some(e_base)) = (end.get(&dep), end.get(&T_EXP_LOG)) {
-            if e_base > e_dep {
-                out.violate(
-                    format!("C16:dependent-table-finished-before-exp-log:{}", T_NAMES[dep as usize]),
-                    format!("{desc}: events {line}"),
-                );
-            }
-        }
-    }
     // interleaving signature: begin/end events with threads renamed in order of appearance
     let mut names: BTreeMap<u64, usize> = BTreeMap::new();
     let sig: Vec<String> = ev
